@@ -1,7 +1,7 @@
 PROP = {
     'level': 'proof',
     'coq': ['Properties/C13.v'],
-    'coq_gen': ['Properties/C13_gen.v'],
+    'coq_gen': ['Properties/C13_gen.v', 'Properties/C13_gen_r8.v'],
     'rule': ("selection: real updateBest through the VerifUpdateBest hook on mock connections vs the model and vs the "
              "property statement as a Go oracle: empty pool, exhaustive n=1,2 over alive x seqno{0,1,2,3,2^32-2,2^32-1} x "
              "rtt{1,2,3} x 3 strategies x every previous choice, sampled n=3,4 from the grid, up to 8 connections with heads "
@@ -103,3 +103,6 @@ META = {
              "(incl. a stress run under the real Run loop), not proved."),
     'technique': 'Coq: functional model + LTS with invariants by induction over reachability; exhaustive-grid and step-replay correspondence with the extracted model',
 }
+
+# ROUND-8-APPEND-2
+PROP['rule'] += ' Round 8: c13.refresh - real Run loop with a 100 ms refresh interval under a steady stream of head updates every 10 ms (from every live connection / only from connections other than the choice, both strategies): when the choice dies, dies again, a better connection returns, or the choice stays alive but falls 2+ blocks behind, the pool must have switched to a live current connection within 10 intervals (periodic refresh is owed regardless of update traffic; key refresh-starved-by-updates). c13.sethead - 2 and 4 goroutines report distinct heads to ONE real connection at the same instant (40000 rounds quick): the head must end at the maximum and a concurrent MasterHead() reader never sees it decrease (key sethead-not-atomic). Both run in background goroutines overlapping the other families (oracle-only). Source obligations Properties/C13_gen_r8.v over Generated/PoolSections.v (translate genC13r8: critical sections of every pool method with fields read/written, calls outside sections): C13_gen_sethead_check_and_store_one_section (comparison with the stored head and the assignment are in one Lock section), C13_gen_writers_single_lock_episode (every writer of a guarded field has exactly one lock episode, so no check-then-act split), C13_gen_subscribe_check_and_register_one_section, C13_gen_guarded_writes_under_write_lock, C13_gen_guarded_reads_outside_sections.'
